@@ -63,9 +63,18 @@ def main():
             paths.append(a)
         else:
             paths += sorted(glob.glob(os.path.join(VERIF, "mutants", a + "*.json")))
+    rp = os.path.join(VERIF, "mutants", "results.json")
+    results = json.load(open(rp)) if os.path.exists(rp) else {}
     for p in paths:
         m, res, t = run_one(p, tests, tier)
         print(f"{os.path.basename(p):42s} {res}" + (f" | {t}" if t else ""), flush=True)
+        e = results.setdefault(m.get("id", os.path.basename(p)), {})
+        e["property"] = m["property"]; e["description"] = m.get("description", "")
+        e[tier] = res[:260]
+        if t:
+            e["tests"] = t
+        with open(rp, "w") as f:
+            json.dump(results, f, indent=1, sort_keys=True)
     # evidence files were rewritten against scratch copies: they are not evidence
     print("NOTE: evidence/*.json were overwritten by mutant runs; re-run the checks on /repo before committing evidence")
 
